@@ -201,6 +201,10 @@ class kLeastAbsErrors(pathmodel.AbstractPathModelDAG):
 
         self.k = k
         self.original_k = k
+        # k is replaced by the size of the weight superset below: it is checked here, as the caller gave it
+        if self.k is not None and (not isinstance(self.k, int) or self.k <= 0):
+            utils.logger.error(f"{__name__}: k must be a positive integer, not {self.k}")
+            raise ValueError(f"k must be a positive integer, not {self.k}")
         self.solution_weights_superset = solution_weights_superset
         self.optimization_options = optimization_options.copy() if optimization_options else {}        
 
